@@ -72,7 +72,7 @@ def NsMgr.addNss (m : NsMgr) (ns : List Ns) : NsMgr :=
 def NsMgr.validQ (m : NsMgr) (q : QName) : NsMgr × QName :=
   if q.ns.pfx = "" then
     match m.dflt with
-    | none => ({ m with dflt := some q.ns }, q)             -- adopt (note: tbl[""] is NOT set)
+    | none => ({ m with dflt := some q.ns, tbl := m.tbl.set "" q.ns }, q)   -- adopt
     | some d =>
       if d = q.ns then (m, ⟨d, q.loc⟩)                       -- same default namespace
       else
